@@ -36,7 +36,7 @@ func newC02Plan(tier string) *c02Plan {
 
 func (c02) Batches(tier string, seed int64) int {
 	p := newC02Plan(tier)
-	return p.nSeq + p.nTree + p.nFuzz + p.nFrag + p.nHostile
+	return p.total() + p.nHostile
 }
 
 var c02DefaultFields = []string{"", "df", "my field", `f"q`, "it's", "a;b--", strings.Repeat("z", 70), "ünï", "x?y", "$1", "se'); DROP TABLE t; --"}
@@ -45,7 +45,7 @@ func (c02) RunBatch(ctx *core.Ctx, batch int) {
 	mon.Install()
 	defer monFlush(ctx)
 	p := newC02Plan(ctx.Tier)
-	base := p.nSeq + p.nTree + p.nFuzz + p.nFrag
+	base := p.total()
 	if batch >= base {
 		which := batch - base
 		for i, h := range gen.HostileStrings {
